@@ -181,7 +181,7 @@ def trace_validation(ctx, C, M_code):
     wd = T.workdir("c08t")
     try:
         for W in ([32, 256] if ctx.quick else [8, 32, 64, 256]):
-            ntr, nev = (12, 2500) if ctx.quick else (48, 12000)
+            ntr, nev = (12, 2500) if ctx.quick else (24, 5000)      # (48 x 12000 events made a 73 MB document that exhausts the heap of TLC's JSON reader)
             traces = []
             for t in range(ntr):
                 rnd = random.Random(ctx.seed * 1000 + W * 10 + t)
